@@ -472,6 +472,11 @@ func lenRec(num protowire.Number, payload []byte) rec {
 // last survives (recursively). It is the input on which "replace" and "merge" semantics coincide; used
 // to recognise the known finding B9 precisely (generated Unmarshal replaces where the runtimes merge).
 func lastWins(md protoreflect.MessageDescriptor, b []byte) ([]byte, bool) {
+	// a message type of another generator's package (google.protobuf.*) is decoded by its own runtime, which
+	// merges: the finding does not reach inside it
+	if strings.HasPrefix(string(md.FullName()), "google.protobuf.") {
+		return b, false
+	}
 	rs, ok := parseRecs(b)
 	if !ok {
 		return b, false
